@@ -170,6 +170,15 @@ func (c *Concretiser) Bytes(m M) []byte {
 		}
 		return pgw.Password(S(m, "pwd"))
 	case "Q":
+		if f := S(m, "fit"); f != "" {
+			q := Sub(m, "q")
+			switch f {
+			case "L":
+				q["pad"] = c.X.EffLimit()
+			case "Lm1":
+				q["pad"] = c.X.EffLimit() - 1
+			}
+		}
 		return pgw.Query(c.prepScript(Sub(m, "q")))
 	case "P":
 		oids := make([]uint32, I(m, "noids"))
@@ -264,15 +273,50 @@ func (c *Concretiser) Bytes(m M) []byte {
 		ty := []byte("zZ0!Aa")[c.Rng.Intn(6)]
 		return pgw.Typed(ty, c.randBytes(8))
 	case "Big":
+		L := c.X.EffLimit()
+		over := 0
+		switch v := m["over"].(type) {
+		case string:
+			switch v {
+			case "1":
+				over = 1
+			case "L":
+				over = L
+			case "Lp1":
+				over = L + 1
+			case "2Lp7":
+				over = 2*L + 7
+			}
+		default:
+			over = AsInt(v)
+		}
+		body := make([]byte, L+over)
+		if S(m, "ty") == "Startup" {
+			copy(body, []byte{0, 3, 0, 0})
+			return pgw.Untyped(body)
+		}
 		ty := S(m, "ty")[0]
 		if ty == 'U' {
 			ty = 'z'
 		}
-		body := make([]byte, c.X.Limit+I(m, "over"))
 		return pgw.Typed(ty, body)
 	case "Tiny":
+		if S(m, "ty") == "Startup" {
+			return []byte{0, 0, 0, byte(I(m, "declared"))}
+		}
 		ty := S(m, "ty")[0]
 		return pgw.TypedDeclared(ty, uint32(I(m, "declared")), nil)
+	case "Huge":
+		var declared uint32
+		switch S(m, "declared") {
+		case "2^31":
+			declared = 1 << 31
+		case "2^32-5":
+			declared = 0xFFFFFFFB
+		default:
+			declared = 0xFFFFFFFF
+		}
+		return pgw.TypedDeclared(S(m, "ty")[0], declared, c.randBytes(I(m, "sent")))
 	case "Bad":
 		return c.badBytes(m)
 	}
